@@ -530,6 +530,23 @@ def blocks_rule(ctx):
         if 'current_block_len' in o0.fields and o1.consts() == {1}:
             ok = True
             d = 'countdown is checked_sub(current_block_len, 1)'
+    # the explicit spelling: `if self.F > 0 { self.F -= 1 } else { new block of one }`
+    explicit = []       # blocks holding `F - 1` under a positivity test of F
+    if not ok:
+        for bb in sorted(snr.live_blocks()):
+            if snr.is_cleanup(bb):
+                continue
+            for s_ in snr.stmts(bb):
+                if 'assign' in s_ and s_['rv']['k'] in ('bin', 'checked_bin') and s_['rv']['op'] in ('Sub', 'SubWithOverflow'):
+                    lo_, ro_ = origin(snr, s_['rv']['l']), origin(snr, s_['rv']['r'])
+                    if lo_.fields == {'current_block_len'} and not lo_.call_names() and not lo_.has_arith() and ro_.consts() == {1} and not ro_.params():
+                        for g_ in cmp_guards(snr, bb):
+                            if g_['l'].fields == {'current_block_len'} and not g_['l'].call_names() and not g_['r'].params() and not g_['r'].fields and \
+                                    ((g_['op'] in ('Gt', 'Ne') and g_['r'].consts() == {0}) or (g_['op'] == 'Ge' and g_['r'].consts() == {1})):
+                                explicit.append(bb)
+        if explicit:
+            ok = True
+            d = 'countdown is current_block_len - 1 under a positivity test of it'
     ctx.ob('BLOCKS', 'signal/countdown', ok, short_loc(snr.span), d)
     # None arm (count exhausted) opens a new block of exactly one element
     for bb, t in snr.calls():
@@ -537,6 +554,11 @@ def blocks_rule(ctx):
             o = origin(snr, t['args'][1])
             og = option_guards(snr, bb)
             none_arm = any('None' in names for names, adt, oo, d_, oth in og)
+            if explicit and not none_arm:
+                # (explicit spelling: the header is written where the count is known to be exhausted)
+                none_arm = any(g_['l'].fields == {'current_block_len'} and not g_['l'].call_names() and not g_['r'].params() and not g_['r'].fields and
+                               ((g_['op'] in ('Le', 'Eq') and g_['r'].consts() == {0}) or (g_['op'] == 'Lt' and g_['r'].consts() == {1}))
+                               for g_ in cmp_guards(snr, bb))
             ctx.ob('BLOCKS', 'signal/new-block-of-one', o.consts() == {1} and none_arm, short_loc(t.get('span')),
                    'extra block header %s written in the None arm: %s' % (o.describe(), none_arm))
     # Some arm stores the decremented value
@@ -546,6 +568,9 @@ def blocks_rule(ctx):
             if 'assign' in s and any(isinstance(e, dict) and e.get('f') == 'current_block_len' for e in s['assign'].get('p', [])):
                 o = origin(snr, s['rv']['op']) if s['rv']['k'] == 'use' else None
                 if o and any(call_matches(c, ['::checked_sub']) for c in o.calls):
+                    st = True
+                if o and explicit and o.fields == {'current_block_len'} and o.consts() == {1} and not o.call_names() and \
+                        {x for x in o.flags if x.startswith('arith:')} and {x for x in o.flags if x.startswith('arith:')} <= {'arith:Sub', 'arith:SubWithOverflow'}:
                     st = True
     ctx.ob('BLOCKS', 'signal/stores-decrement', st, short_loc(snr.span), 'current_block_len = checked_sub result: %s' % st)
     new = bs['new']
